@@ -180,6 +180,12 @@ def main():
                 # the id is free again: a replacement takes it (the retired member still has to be waited for / killed)
                 group.makegateway("popen//id=%s" % gid)
                 emit(event="replaced", id=gid)
+        if case.get("kill_during_terminate"):
+            # a member that is stopped when terminate() begins dies a little later (the OOM killer, an operator's kill -9)
+            import threading
+
+            gid, delay = case["kill_during_terminate"]
+            threading.Timer(delay, lambda: _quiet(lambda: os.kill(workers[gid], signal.SIGKILL))).start()
         t0 = time.monotonic()
         raised = None
         try:
